@@ -90,6 +90,29 @@ def check_grade_parts(res, L, rng, tag, reps=1, full_pairs=True):
             if not (common.eq(f(A + C, B), f(A, B) + f(C, B)) and common.eq(f(A, B + C), f(A, B) + f(A, C))
                     and common.eq(f(3 * A, B), 3 * f(A, B)) and common.eq(f(A, B * 5), 5 * f(A, B))):
                 res.violate(f'{nm} is not bilinear', inp, None, None, dict(site, op=nm, bilinear=True))
+        # homogeneity at extreme scales (powers of two: exact in binary64): the products have no tolerance in them
+        Af, Bf = (common.mv(L, gen.int_mv(rng, N, 'dense', -4, 4)).astype(np.float64) for _ in range(2))     # small: every sum below stays exact
+        for e2 in (45, 60):
+            As, Bs = (2.0 ** -e2) * Af, (2.0 ** e2) * Bf
+            Ash = 7.0 + (2.0 ** -e2) * (Af - Af(0))          # an O(1) scalar part plus a tiny non-scalar part
+            for nm, f in (('^', lambda x, y: x ^ y), ('|', lambda x, y: x | y), ('<<', lambda x, y: x << y), ('lc', lambda x, y: x.lc(y))):
+                res.case(('scaled', nm, e2) + key, nontrivial=nt)
+                exp = f(Af, Bf)
+                for what, got in (('(cA, B/c)', f(As, Bs)), ('(B/c, cA)', None)):
+                    if got is None:
+                        got, exp2 = f(Bs, As), f(Bf, Af)
+                    else:
+                        exp2 = exp
+                    if not np.array_equal(got.value, exp2.value):
+                        res.violate(f'{nm} is not homogeneous: f(cA, B/c) != f(A, B) for c = 2^-{e2}', dict(site, A=Af.value.tolist(), B=Bf.value.tolist(), c=f'2^-{e2}', operands=what), got.value.tolist(),
+                                    exp2.value.tolist(), dict(site, op=nm, scaled=e2))
+                if e2 != 45:
+                    continue
+                exp3 = f(7.0 + 0.0 * Af, Bs) + f(Af - Af(0), Bf)
+                got3 = f(Ash, Bs)
+                if not np.array_equal(got3.value, exp3.value):
+                    res.violate(f'{nm} is not additive on (scalar + tiny non-scalar part)', dict(site, A=Af.value.tolist(), B=Bf.value.tolist(), c=f'2^-{e2}'), got3.value.tolist(), exp3.value.tolist(),
+                                dict(site, op=nm, scaled=e2, additive=True))
         res.case(('assoc^',) + key, nontrivial=nt)
         if not common.eq((A ^ B) ^ C, A ^ (B ^ C)):
             res.violate('outer product is not associative', inp, ((A ^ B) ^ C).value.tolist(), (A ^ (B ^ C)).value.tolist(), dict(site, op='^assoc'))
